@@ -73,6 +73,10 @@ PG_STATEMENTS = [
     "SELECT @x, $1", "SELECT @", "EXPLAIN SELECT 1", "CREATE TABLE z (a int)", "DROP TABLE t", "BEGIN", "COMMIT", "SET search_path = x", "COPY t FROM STDIN", "VACUUM t",
     "GRANT SELECT ON t TO x", "CREATE INDEX i ON t (id)", "ALTER TABLE t ADD COLUMN q int", "DO $$ BEGIN END $$", "LISTEN x", "PREPARE p AS SELECT $1", "EXECUTE p(1)",
     "CALL p($1)", "REFRESH MATERIALIZED VIEW v", "CREATE VIEW v AS SELECT $1", "SELECT 1; SELECT 2", "SELECT id -", "SELECT id FROM t -- tail -", "SELECT '\\x00'",
+    "WITH x (a, b) AS (SELECT id, name FROM t) SELECT a, b FROM x WHERE a = $1", "WITH x (a, b, c) AS (SELECT id, name FROM t) SELECT * FROM x",
+    "WITH labels (code, label) AS (VALUES (1, 'one'), (2, 'two')) SELECT t.id, labels.label FROM t JOIN labels ON labels.code = t.id WHERE t.id = $1",
+    "WITH x (a) AS (SELECT id, name FROM t) SELECT * FROM x", "SELECT * FROM (SELECT id, name FROM t) AS s (a, b, c) WHERE a = $1", "SELECT * FROM t AS s (a, b, c, d)",
+    "SELECT concat(name, name, 'x', $1) FROM t", "SELECT concat_ws(',', name, $1, $2, $3, $4) FROM t", "SELECT format('%s %s %s', $1, $2, $3)",
     "LOCK TABLE t", "SHOW ALL", "CREATE FUNCTION f() RETURNS int AS 'select 1' LANGUAGE sql", "COMMENT ON TABLE t IS 'x'", "SELECT * FROM t WHERE name LIKE $1 ESCAPE $2",
     "SELECT id::text::int::text FROM t WHERE id = $1::int::bigint", "SELECT (SELECT (SELECT $1))", "DELETE FROM t RETURNING *, *", "UPDATE t SET id = DEFAULT WHERE CURRENT OF c",
 ]
@@ -83,6 +87,8 @@ MY_STATEMENTS = [
     "SELECT CASE WHEN ? THEN 1 END", "SELECT -?", "SELECT ? IS NULL", "SELECT * FROM t GROUP BY ? HAVING ?", "SHOW TABLES", "CREATE TABLE z (a int)", "TRUNCATE t",
     "SELECT * FROM t UNION SELECT * FROM u", "SELECT (SELECT ?)", "WITH c AS (SELECT ?) SELECT * FROM c", "CALL p(?)", "SET @a = ?", "SELECT @a", "SELECT * FROM t FOR UPDATE",
     "INSERT INTO t (id) VALUES (?) ON DUPLICATE KEY UPDATE name = ?", "SELECT * FROM t PARTITION (p0)", "SELECT a.* FROM t a STRAIGHT_JOIN u b ON a.id = b.id WHERE b.id = ?",
+    "SELECT CONCAT(name, name, 'x', ?) FROM t", "SELECT CONCAT_WS(',', name, ?, ?, ?) FROM t", "SELECT COALESCE(name, ?, ?, ?) FROM t", "SELECT GREATEST(id, ?, ?, ?, ?) FROM t",
+    "SELECT ELT(?, 'a', 'b', 'c', 'd') FROM t", "SELECT FIELD(?, 'a', 'b', 'c', 'd', 'e')", "SELECT JSON_OBJECT('a', ?, 'b', ?, 'c', ?)", "SELECT CHAR(?, ?, ?, ?)",
     "ALTER TABLE t ADD COLUMN q int", "DROP TABLE t", "LOAD DATA INFILE 'x' INTO TABLE t", "SELECT CONVERT(? USING utf8)", "SELECT CAST(? AS UNSIGNED)", "SELECT id -",
 ]
 SCHEMA_PG = "CREATE TABLE t (id int PRIMARY KEY, name text);\nCREATE TABLE u (id int, name text);\n"
